@@ -219,6 +219,23 @@ class ByteInterp(VecInterp):
             raise Undecidable("? on %r" % (r,))
         if decl.endswith("ops::try_trait::FromResidual::from_residual"):
             return a[0]
+        m_ = re.search(r"core::num::<impl (u64|u32|u16|usize)>::(from_be_bytes|from_le_bytes|to_be_bytes|to_le_bytes)$", c)
+        if m_:
+            nb = {"u64": 8, "usize": 8, "u32": 4, "u16": 2}[m_.group(1)]
+            op = m_.group(2)
+            if op.startswith("from"):
+                arr = list(a[0])
+                if len(arr) != nb:
+                    raise Undecidable("%s of %d bytes" % (op, len(arr)))
+                ents = [slot_of(x) if isinstance(x, BWord) else x for x in arr]
+                if op == "from_le_bytes":
+                    ents = ents[::-1]
+                return norm(BWord([0] * (NB - nb) + ents))
+            w = lift(a[0])
+            ents = list(w.s[NB - nb:])
+            if op == "to_le_bytes":
+                ents = ents[::-1]
+            return [x if isinstance(x, int) else BWord([0] * (NB - 1) + [x]) for x in ents]
         if re.search(r"std::io::(error::)?Error::new$", c):
             return "io error"
         if re.search(r"alloc::fmt::format$|fmt::format::format_inner$", c):
